@@ -188,6 +188,12 @@ lz_encode(void *coder_ptr, const lzma_allocator *allocator,
 }
 
 
+#ifdef TUKAANI_PROJECT_XZ_VERIF
+/// Verification hook H1 (see lz_encoder_init()): extra initial mf->offset.
+uint32_t lzma_verif_mf_offset_bias = 0;
+#endif
+
+
 static bool
 lz_encoder_prepare(lzma_mf *mf, const lzma_allocator *allocator,
 		const lzma_lz_options *lz_options)
@@ -393,6 +399,11 @@ lz_encoder_init(lzma_mf *mf, const lzma_allocator *allocator,
 	// that match finder needs to be normalized more often, which may
 	// hurt performance with huge dictionaries.
 	mf->offset = mf->cyclic_size;
+#ifdef TUKAANI_PROJECT_XZ_VERIF
+	// Verification hook H1: start closer to the normalization point so
+	// that normalize() runs after a few KiB instead of about 4 GiB.
+	mf->offset += lzma_verif_mf_offset_bias;
+#endif
 	mf->read_pos = 0;
 	mf->read_ahead = 0;
 	mf->read_limit = 0;
